@@ -10,3 +10,6 @@ pub mod util;
 
 mod c06_key;
 mod single;
+mod probe;
+pub mod col;
+mod gen_col;
